@@ -97,6 +97,15 @@ def loud_programs():
     progs["switch3/in_scan"] = mk(lambda i, xs: lax.scan(lambda c, a: (sw3(i, c) + a, c), jnp.zeros(2), xs), [((), I32), ((3, 2), F32)])
     progs["switch3/in_function"] = mk(lambda x: LoudBody("switch3")(x), [((3,), F32)])
     progs["rev_scan/top"] = mk(revscan, [((3,), F32)])
+    progs["rev_scan/no_xs"] = mk(lambda x: lax.scan(lambda c, _: (c * 0.5 + 1.0, c * 2.0), x, None, length=3, reverse=True), [((2,), F32)])
+    progs["rev_scan/no_xs_no_ys"] = mk(lambda x: lax.scan(lambda c, _: (c * 0.5 + 1.0, None), x, None, length=3, reverse=True)[0], [((2,), F32)])
+    progs["rev_scan/two_xs"] = mk(lambda a, b: lax.scan(lambda c, ab: (c + ab[0] * ab[1], c), 0.0, (a, b), reverse=True), [((3,), F32), ((3,), F32)])
+    progs["rev_scan/unroll2"] = mk(lambda xs: lax.scan(lambda c, a: (c + a, c * a), 0.0, xs, reverse=True, unroll=2), [((4,), F32)])
+    progs["rev_cumsum/top"] = mk(lambda x: lax.cumsum(x, axis=0, reverse=True) + lax.cummax(x, axis=0, reverse=True), [((4,), F32)])
+    progs["switch4/top"] = mk(lambda i, a: lax.switch(i, [lambda v: v + 1.0, lambda v: v * 2.0, lambda v: -v, lambda v: v * v], a), [((), I32), ((2,), F32)])
+    progs["switch3/in_while"] = mk(lambda i, x: lax.while_loop(lambda s: s[0] < 2, lambda s: (s[0] + 1, sw3(i, s[1])), (jnp.int32(0), x))[1], [((), I32), ((2,), F32)])
+    progs["dyn_fori/lower_dynamic"] = mk(lambda x, n: lax.fori_loop(n, 3, lambda i, a: a + 1.0, x), [((2,), F32), ((), I32)])
+    progs["while_nonscalar_like/top"] = mk(lambda x: lax.while_loop(lambda s: jnp.all(s < 3.0), lambda s: s + 1.0, x), [((2,), F32)])
     progs["rev_scan/in_cond"] = mk(lambda xs: lax.cond(xs[0] > 0, lambda a: revscan(a)[1], lambda a: a, xs), [((3,), F32)])
     progs["rev_scan/in_function"] = mk(lambda x: LoudBody("rev_scan")(x), [((3,), F32)])
     progs["dyn_fori/top"] = mk(dynfori, [((2,), F32), ((), I32)])
